@@ -4,6 +4,8 @@ import (
 	"encoding/json"
 	"fmt"
 
+	"github.com/cocosip/go-dicom/pkg/imaging/imagetypes"
+
 	"verif/internal/gen"
 	"verif/internal/mon"
 	"verif/internal/ref"
@@ -29,6 +31,18 @@ type c01Case struct {
 	// After > 0 (gen afterr): that many rejected Encode calls (truncated frame) and one rejected
 	// Decode call (truncated stream) are made on the codec just before the round trip
 	After int `json:"after,omitempty"`
+	// BS > 0: BitsStored below BitsAllocated (and PR: PixelRepresentation); the frame bytes stay
+	// arbitrary ("every pixel byte string": overlay bits, sign extension, dirty padding above BitsStored)
+	BS int `json:"bs,omitempty"`
+	PR int `json:"pr,omitempty"`
+}
+
+func (c *c01Case) info() *imagetypes.FrameInfo {
+	bs := c.BA
+	if c.BS > 0 {
+		bs = c.BS
+	}
+	return FrameInfo(c.Cols, c.Rows, c.BA, bs, c.SPP, c.PR, c.Planar)
 }
 
 type c01 struct{}
@@ -180,7 +194,16 @@ func (c01) Build(tier string, seed uint64) []any {
 				h = randMax - 1
 			}
 		}
-		cs = append(cs, &c01Case{Gen: "rand", Rows: h, Cols: w, BA: l[0], SPP: l[1], Planar: l[2], Class: gen.Classes[r.Intn(len(gen.Classes))], CSeed: r.U64()})
+		rc := &c01Case{Gen: "rand", Rows: h, Cols: w, BA: l[0], SPP: l[1], Planar: l[2], Class: gen.Classes[r.Intn(len(gen.Classes))], CSeed: r.U64()}
+		if i%3 == 1 {
+			// BitsStored at least one whole byte plane below BitsAllocated in half of these
+			rc.BS, rc.PR = 1+r.Intn(l[0]), r.Intn(2)
+			if r.Bool() && l[0] > 8 {
+				rc.BS = 1 + r.Intn(l[0]-8)
+			}
+			rc.Class = gen.Pick(r, "noise", "altext", "twolevel", "runs")
+		}
+		cs = append(cs, rc)
 	}
 	// (afterr) the round trip right after calls the codec rejected (state left behind by an
 	// error path - pooled encoders, partially written headers - must not leak into the next frame)
@@ -323,7 +346,7 @@ func (c01) Exec(d any) mon.Result {
 
 // c01One runs the three oracles on one native frame.
 func c01One(c *c01Case, frame []byte) mon.Result {
-	info := FrameInfo(c.Cols, c.Rows, c.BA, c.BA, c.SPP, 0, c.Planar)
+	info := c.info()
 	cd := Codec("rle")
 	keep := append([]byte(nil), frame...)
 	src := NewPD(info, frame)
@@ -400,7 +423,7 @@ func (c01) Finish(obs map[string]int64, ev map[string]any) {
 // not judged here): Encode of the frame cut short, Decode of a stream cut short.
 func c01Rejected(c *c01Case, frame []byte) {
 	defer func() { _ = recover() }()
-	info := FrameInfo(c.Cols, c.Rows, c.BA, c.BA, c.SPP, 0, c.Planar)
+	info := c.info()
 	cd := Codec("rle")
 	r := gen.New(c.CSeed ^ 0x5eed)
 	for k := 0; k < c.After; k++ {
